@@ -46,6 +46,12 @@ class Instruction(_mixins.DictMixin, _mixins.RegisterMixin, _mixins.CodeMixin):
 
         self._unresolved_params = self._get_unresolved_params(self._params)
 
+        # NOTE: The objects the user specified (e.g., the expression strings), which
+        # are written back to `_params` after each temporary parameter resolution.
+        self._original_unresolved_params = {
+            name: self._params[name] for name in self._unresolved_params
+        }
+
     @staticmethod
     def _get_unresolved_params(params: dict) -> dict:
         callable_params = {
@@ -95,7 +101,7 @@ class Instruction(_mixins.DictMixin, _mixins.RegisterMixin, _mixins.CodeMixin):
         self._params.update(_resolved_params)
 
     def _unresolve_params(self):
-        self._params.update(self._unresolved_params)
+        self._params.update(self._original_unresolved_params)
 
     @property
     def modes(self) -> Tuple[int, ...]:
